@@ -299,8 +299,19 @@ func RunProofPlan(w *tr.Writer, st *PStats, tid int, p PPlan) {
 	}
 	block := (p.Block-1)*S + 1 + []uint64{0, S - 1, S / 2}[tid%3]
 	t := buildTrieMode(scaled, mode)
-	root := append([]byte(nil), t.Root()...)
+	if mode == 0 && tid%2 == 1 && len(scaled) > 0 {
+		// hashed, then updated: the root hash is computed once, then one key gets another value and its own value back (the
+		// path is dirty again, with cached hashes of the intermediate state around it)
+		_ = t.Root()
+		e := scaled[(tid/2)%len(scaled)]
+		_ = t.Update(pkey(e.ab), []byte(e.val+"'"), e.w)
+		_ = t.Root()
+		_ = t.Update(pkey(e.ab), []byte(e.val), e.w)
+	}
+	// the proof is requested BEFORE the root hash is read: the prover must not depend on somebody having refreshed its
+	// cached hashes since the last update
 	recs, honest := honestRecords(t, block)
+	root := append([]byte(nil), t.Root()...)
 	if recs == nil {
 		// the prover's own output is unusable for editing: submit it as it is, as the honest proof it claims to be
 		ev := map[string]any{"tid": tid, "op": "proof", "entries": entriesJSON(entries), "block": p.Block, "nedits": 0,
@@ -413,8 +424,12 @@ func RunProofRandom(w *tr.Writer, st *PStats, tid *int, r *rand.Rand) {
 			t = wmpt.New(wmpt.NewHashNode(t.Root(), t.Weight()), db)
 		}
 	}
-	root := append([]byte(nil), t.Root()...)
 	total := t.Weight()
+	// the first proof is requested before the root hash is read for the first time (an in-memory prover has never hashed
+	// anything at this point)
+	b0 := uint64(1 + r.Intn(int(total)))
+	_, honest0, err0 := t.GetBlockProof(b0)
+	root := append([]byte(nil), t.Root()...)
 	// another trie for cross-trie substitution
 	t2 := wmpt.New(nil, nil)
 	for i, e := range rks {
@@ -428,13 +443,20 @@ func RunProofRandom(w *tr.Writer, st *PStats, tid *int, r *rand.Rand) {
 	for n := 0; n < 12; n++ {
 		b := uint64(1 + r.Intn(int(total)))
 		_, honest, err := t.GetBlockProof(b)
+		if n == 0 {
+			b, honest, err = b0, honest0, err0
+		}
 		if err != nil {
 			honest = nil // judged as an honest proof that does not verify
 		}
 		proof := append([]byte(nil), honest...)
 		kind := "honest"
 		imitated := false
-		switch r.Intn(6) {
+		sel := r.Intn(6)
+		if n == 0 {
+			sel = 0 // the pre-fetched proof is submitted as it is
+		}
+		switch sel {
 		case 5:
 			// pass the hash preimage of a branch / short record of the honest proof off as a value record
 			kind = "imitate"
